@@ -400,6 +400,10 @@ def run(ctx):
     from .c01 import check_molden_reader_tags
 
     check_molden_reader_tags(ctx, ConstEval(prog), "R11")
+    ctx.rule("R16", "Molden [MO]: every orbital goes to the spin block its own Spin= label names, as a column (whole section reader on a model stream with alpha, beta, alpha)", "orbitals split by position instead of by label: a file that lists the orbitals by energy loads with alpha and beta mixed, each still normalised, so no correction of the cascade notices")
+    from .indexmaps import check_index_maps as _cim
+
+    _cim(ctx, "R16", ["molden_mo"])
     ctx.rule("R12", "Molden: the unit keyword of the [Atoms] line selects the coordinate factor (evaluated on every spelling)", "`[Atoms] (Angs)` coordinates are taken as bohr: all inter-atomic overlaps are wrong, no correction of the cascade passes and a standard-conforming file is rejected")
     from .c04 import check_molden_atoms_unit
 
